@@ -20,8 +20,8 @@
      C12_mvp63_cycles_lower_bound_ssa_straight, C07_mvp63_terminates_ssa_straight, C07_mvp63_no_panic_ssa_straight
      C01_mvp63_example_any                the 14-instruction example at ANY number of units and ANY order
    The unit theorems of the first delivery are kept (..._partial): control unit, head operands, write unit.
-   NOT proved: the extension to forward branches / jumps on single-assignment programs (no counterexample
-   in 178 000 programs; see the header of Mvp/Mvp63RefProofs.v for what the proof needs). *)
+   The extension to forward branches / jumps on single-assignment programs is proved in Props/C01_mvp63_fwd.v
+   (C01_mvp63_refines_seq_ssa_forward; Mvp/Mvp63RefFwd*.v). *)
 From Coq Require Import ZArith List Bool Lia.
 From Maj Require Import Base.Outcome Base.GoInt Base.GoTypes Isa.Spec Isa.Seq Isa.Refine Gen.Opcodes Comp.Rat.
 From Maj Require Import Mvp.Mvp12 Mvp.Mvp12Proofs Mvp.Mvp4Skel Mvp.Mvp60 Mvp.Mvp60RefSem Mvp.Mvp60RefDefs Mvp.Mvp60RefBack Mvp.Mvp60RefStep
